@@ -380,6 +380,12 @@ impl<'a, 'src: 'a> Compiler<'a, 'src> {
     }
   }
 
+  /// Number the cache slots of this compilation with the provided emitter
+  pub fn with_cache_ids(mut self, cache_id_emitter: CacheIdEmitter) -> Self {
+    self.cache_id_emitter = Rc::new(RefCell::new(cache_id_emitter));
+    self
+  }
+
   #[cfg(feature = "debug")]
   pub fn with_io(mut self, io: Io) -> Self {
     self.io = Some(io);
